@@ -7,6 +7,7 @@ import (
 	"crypto/tls"
 	"fmt"
 	"math/rand"
+	"regexp"
 	"strings"
 	"sync"
 	"testing"
@@ -39,7 +40,7 @@ type vfC03Case struct {
 var vfC03Steps = []string{"S0-header", "S1-features", "S2-starttls", "S3-tls", "S4-secure-restart", "S5-sasl", "S6-restart", "S7-resume", "S8-bind", "S9-session", "S10-enable"}
 
 func vfC03Devs(step string) []string {
-	common := []string{"stream-error", "unexpected-stanza", "unexpected-nonza", "malformed", "truncated-close", "fin", "rst"}
+	common := []string{"stream-error", "unexpected-stanza", "unexpected-nonza", "malformed", "malformed-repairable", "truncated-close", "fin", "rst"}
 	switch step {
 	case "S0-header":
 		return []string{"wrong-root", "malformed", "fin", "rst", "garbage"}
@@ -125,6 +126,10 @@ func vfC03Play(pc *vfPeerConn, cs *vfC03Case, scripted bool, tlsCfg *tls.Config,
 			}
 		case "malformed":
 			pc.Send("<iq type='result' <<< &&& >")
+		case "malformed-repairable":
+			// the right reply, spelt the way HTML would tolerate: attribute values without quotes. Not well-formed XML,
+			// hence not the reply - however easy it is to guess what was meant.
+			pc.Send(vfUnquoteAttrs(ok))
 		case "garbage":
 			pc.Send("HTTP/1.1 400 Bad Request\r\n\r\n")
 		case "truncated-close":
@@ -275,6 +280,10 @@ func vfC03Play(pc *vfPeerConn, cs *vfC03Case, scripted bool, tlsCfg *tls.Config,
 		note("resume")
 		checkPipeline("S7-resume")
 		okr := fmt.Sprintf("<resumed xmlns='%s' previd='%s' h='0'/>", vfNSSM, e.Attrs["previd"])
+		if v%3 == 2 {
+			// some servers leave the counter out when nothing was received: still a confirmation of that id
+			okr = fmt.Sprintf("<resumed xmlns='%s' previd='%s'/>", vfNSSM, e.Attrs["previd"])
+		}
 		d := dev("S7-resume")
 		switch d {
 		case "refuse", "refuse-item-not-found":
@@ -742,4 +751,12 @@ func vfSwapCase(x string) string {
 		}
 	}
 	return string(b)
+}
+
+var vfQuotedAttr = regexp.MustCompile(`=(['"])([^'" <>=]+)['"]`)
+
+// vfUnquoteAttrs strips the quotes of every attribute value that contains nothing a lenient parser would stop at.
+func vfUnquoteAttrs(x string) string {
+	x = vfQuotedAttr.ReplaceAllString(x, "=$2 ")
+	return x
 }
